@@ -1,40 +1,55 @@
 (* C02 — the replay used by the correspondence check only ever takes steps of the machine the theorems are about:
-   the batch state after replaying any observed trace is a reachable state of `bstep`. *)
-From V Require Import Base.Common Model.C02_Batch Model.C02_Set Model.C02_Check Proofs.C02_Batch.
+   the batch state after replaying any observed trace is a reachable state of the timed machine `tstep` (the clock is
+   driven by the harness timestamps), hence, once the clock is forgotten, a reachable state of `bstep`. *)
+From V Require Import Base.Common Model.C02_Batch Model.C02_BatchTime Model.C02_Set Model.C02_Check Proofs.C02_Batch Proofs.C02_BatchTime.
 Open Scope N_scope.
 
 Lemma brun_snoc {A} c (es : list (bev A)) e : brun c (es ++ [e]) = bstep c (brun c es) e.
 Proof. unfold brun. now rewrite fold_left_app. Qed.
 
-Lemma replay_step_reachable c nofire s e :
-  (exists es, r_b s = brun c es) -> exists es, r_b (replay_step c nofire s e) = brun c es.
+Definition reach (c : tcfg) (x : tbst item) : Prop := exists tes, x = trun c tes.
+
+Lemma reach_step c x te : reach c x -> reach c (tstep c x te).
+Proof. intros [tes ->]. exists (tes ++ [te]). unfold trun, trun_from. now rewrite fold_left_app. Qed.
+
+Lemma reach_tick c at_ x : reach c x -> reach c (tick_to c at_ x).
+Proof. intros H. unfold tick_to. now apply reach_step. Qed.
+
+Lemma replay_step_reachable c nofire slack s te : reach c (r_b s) -> reach c (r_b (replay_step c nofire slack s te)).
 Proof.
-  intros [es H]. assert (K : exists es, r_b s = brun c es) by eauto.
-  destruct e as [id o ok|id ok|p|id o p ok| |]; unfold replay_step; cbv zeta.
-  - exists (es ++ [Enq (id, o)]). cbn [r_b]. now rewrite brun_snoc, H.
-  - destruct (pc (r_b s)) eqn:P, (blocked (r_b s)) eqn:B, (queue (r_b s)) as [|[i o] q] eqn:Q; cbn [r_b]; try exact K.
-    exists (es ++ [Take ok]). now rewrite brun_snoc, H.
-  - destruct (blocked (r_b s)) eqn:B; cbn [r_b]; [exact K|]. destruct (batch_commit (r_l s) p) as [l' hs].
-    destruct (pc (r_b s)) eqn:P.
-    + destruct (t_chan (tm (r_b s))) eqn:T; cbn [r_b].
-      * exists (es ++ [OnTimer (pres_ok p)]). now rewrite brun_snoc, H.
-      * destruct (t_active (tm (r_b s)) && negb nofire); cbn [r_b]; [|exact K].
-        exists ((es ++ [Fire]) ++ [OnTimer (pres_ok p)]). now rewrite !brun_snoc, H.
-    + cbn [r_b]. exists (es ++ [SizeCommit (pres_ok p)]). now rewrite brun_snoc, H.
-  - destruct (direct_op (r_l s) o p) as [[l' hs] okm]. cbn [r_b]. exact K.
-  - cbn [r_b]. exact K.
-  - cbn [r_b]. exact K.
+  intros K. destruct te as [at_ e]. unfold replay_step.
+  pose proof (reach_tick c at_ _ K) as K1. set (tb := tick_to c at_ (r_b s)) in *.
+  destruct e as [id o ok|id ok|p|id o p ok| |]; cbv zeta.
+  - cbn [r_b]. now apply reach_step.
+  - destruct (pc (core tb)), (blocked (core tb)), (queue (core tb)) as [|[i o] q]; cbn [r_b]; try exact K1. now apply reach_step.
+  - destruct (blocked (core tb)); cbn [r_b]; [exact K1|]. destruct (batch_commit (r_l s) p) as [l' hs].
+    destruct (pc (core tb)).
+    + destruct (t_chan (tm (core tb))); cbn [r_b]; [now apply reach_step|].
+      destruct (t_active (tm (core tb)) && negb nofire); cbn [r_b]; [|exact K1].
+      apply reach_step, reach_step, reach_tick. exact K1.
+    + cbn [r_b]. now apply reach_step.
+  - destruct (direct_op (r_l s) o p) as [[l' hs] okm]. cbn [r_b]. exact K1.
+  - cbn [r_b]. exact K1.
+  - cbn [r_b]. exact K1.
 Qed.
 
-Lemma replay_reachable c nofire t : exists es, r_b (replay c nofire t) = brun c es.
+Lemma replay_reachable c nofire slack t : exists tes, r_b (replay c nofire slack t) = trun c tes.
 Proof.
   unfold replay.
-  assert (G : forall s, (exists es, r_b s = brun c es) -> exists es, r_b (fold_left (replay_step c nofire) t s) = brun c es).
+  assert (G : forall s, reach c (r_b s) -> reach c (r_b (fold_left (replay_step c nofire slack) t s))).
   { induction t as [|e t IH]; intros s H; simpl; auto. apply IH. now apply replay_step_reachable. }
   apply G. exists []. reflexivity.
 Qed.
 
+Lemma replay_reachable_untimed c nofire slack t : reset_every_item c = false ->
+  exists es, core (r_b (replay c nofire slack t)) = brun (tc c) es.
+Proof. intros R. destruct (replay_reachable c nofire slack t) as [tes ->]. now apply trun_untimed. Qed.
+
 (* hence the replayed state of a case checked against the repaired code is never blocked: a TStuck event in an observed
    trace can never be explained by the model *)
-Lemma replay_never_blocked qcap maxsize nofire t : blocked (r_b (replay (mk_bcfg qcap maxsize true) nofire t)) = false.
-Proof. destruct (replay_reachable (mk_bcfg qcap maxsize true) nofire t) as [es ->]. now apply never_blocks. Qed.
+Lemma replay_never_blocked qcap maxsize age nofire slack t :
+  blocked (core (r_b (replay (mk_tcfg (mk_bcfg qcap maxsize true) age false) nofire slack t))) = false.
+Proof.
+  destruct (replay_reachable_untimed (mk_tcfg (mk_bcfg qcap maxsize true) age false) nofire slack t eq_refl) as [es ->].
+  now apply never_blocks.
+Qed.
